@@ -13,7 +13,8 @@ ID = "C04"
 RULE = (
     "Well-formed descriptions of the C01 grammar and damaged ones (token deletion / duplication / swap / truncation / colon "
     "removal / stray Twp/Rge or section inserted) x parse modes {default, segment, sec_within, sec_colon_required, "
-    "sec_colon_cautious, segment+sec_within, each of the four layouts forced through parse(layout=)} x one foreign word "
+    "sec_colon_cautious, segment+sec_within, each of the four layouts and copy_all forced through parse(layout=), and combinations: "
+    "any 1..3 of the four flags with or without a layout mandated through parse(layout=) or the config text} x one foreign word "
     "inserted at any token or punctuation boundary (start, end, inside a Twp/Rge, inside a section list, inside a block, "
     "before the first / after the last Twp/Rge). Words: the marker QJXKQ, random alphabetic words of 5..12 letters, and "
     "ordinary deed words that collide with pattern fragments (equipment, development, northerly, ...). Oracle: the word is "
@@ -98,20 +99,42 @@ def _keep(c):
     return True
 
 
+def _combo(flags, layout, via):
+    parts = sorted(flags)
+    if layout:
+        parts.append(f"{via}:{layout}")
+    return ",".join(parts)
+
+
+# combinations: any subset of the flags, optionally with a layout mandated through parse(layout=) or the config text
+MODE = st.one_of(
+    st.sampled_from(MODES),
+    st.builds(_combo, st.sets(st.sampled_from(["segment", "sec_within", "sec_colon_required", "sec_colon_cautious"]), min_size=1, max_size=3),
+              st.sampled_from([None, None] + G.LAYOUTS + ["copy_all"]), st.sampled_from(["layout", "cfglayout"])))
+
+
 CASE = st.fixed_dictionaries({
     "d": G.description(None, 2, 2), "ops": _OPS.map(lambda ops: [list(o) for o in ops]), "word": WORD,
-    "pos": st.integers(0, 400), "mode": st.sampled_from(MODES),
+    "pos": st.integers(0, 400), "mode": MODE,
 }).filter(_keep)
 
 _last = {}
 
 
 def parse(text, mode):
-    if mode.startswith("layout:"):
-        d = PLSSDesc(text, wait_to_parse=True)
-        d.parse(layout=mode.split(":", 1)[1])
+    """mode: comma-separated settings; 'layout:X' is handed to parse(layout=X), 'cfglayout:X' is part of the config text."""
+    parts = [m for m in mode.split(",") if m]
+    forced = [m.split(":", 1)[1] for m in parts if m.startswith("layout:")]
+    cfg = ",".join(m.split(":", 1)[1] if m.startswith("cfglayout:") else m for m in parts if not m.startswith("layout:"))
+    if forced:
+        d = PLSSDesc(text, config=cfg, wait_to_parse=True)
+        d.parse(layout=forced[0])
         return d
-    return PLSSDesc(text, config=mode)
+    return PLSSDesc(text, config=cfg)
+
+
+def mode_class(mode):
+    return "mode=" + (mode if mode in MODES else "combination")
 
 
 def where(d, word):
@@ -142,7 +165,7 @@ def nontrivial(c):
 
 
 def classes(c):
-    out = [f"mode={c['mode']}", f"landing={_last.get('landing')}", "damaged" if c["ops"] else "undamaged"]
+    out = [mode_class(c["mode"]), f"landing={_last.get('landing')}", "damaged" if c["ops"] else "undamaged"]
     w = c["word"]
     out.append("word=marker" if w == "QJXKQ" else "word=deed" if w in DEED_WORDS else "word=random")
     return out
@@ -156,7 +179,7 @@ def render(c):
 # ---------------------------------------------------------------------------
 # conservation of the known payload on undamaged descriptions
 
-PAY_CASE = st.fixed_dictionaries({"d": G.description(None, 3, 3), "mode": st.sampled_from(MODES)})
+PAY_CASE = st.fixed_dictionaries({"d": G.description(None, 3, 3), "mode": MODE})
 
 
 def payload_words(d):
@@ -237,9 +260,9 @@ SUBS = [
         n={"quick": 500, "thorough": 8000}, shards={"quick": 4, "thorough": 16}),
     Sub("foreign_word", oracle, strategy=lambda tier: CASE, validate=validate, nontrivial=nontrivial, classes=classes, render=render,
         n={"quick": 1200, "thorough": 20000}, shards={"quick": 10, "thorough": 16},
-        essential=tuple(f"mode={m}" for m in MODES) + ("landing=flag", "landing=tract", "damaged", "word=deed", "word=random")),
+        essential=tuple(f"mode={m}" for m in MODES) + ("mode=combination", "landing=flag", "landing=tract", "damaged", "word=deed", "word=random")),
     Sub("payload", oracle_payload, strategy=lambda tier: PAY_CASE, validate=lambda c: G.validate(c["d"]),
-        nontrivial=lambda c: c["mode"] != "" and bool(payload_words(c["d"])), classes=lambda c: [f"mode={c['mode']}"],
+        nontrivial=lambda c: c["mode"] != "" and bool(payload_words(c["d"])), classes=lambda c: [mode_class(c["mode"])],
         render=lambda c: {"text": G.render(c["d"]), "mode": c["mode"]},
         n={"quick": 600, "thorough": 8000}, shards={"quick": 4, "thorough": 16}),
 ]
